@@ -204,10 +204,11 @@ func init() {
 		Pkg:         "github.com/cloudwego/thriftgo/fieldmask",
 		Diff:        []string{"D_C14_1", "D_C14_2", "D_C14_3", "D_C14_4", "D_C14_5", "D_C14_6"},
 		Functions: []string{"fieldmask.NewFieldMask", "fieldmask.(*FieldMask).addPath", "fieldmask.(*pathIterator).Next/lit/str", "fieldmask.newPathToken",
-			"fieldmask.(*FieldMask).Field/Int/Str/All/GetPath/PathInMask", "fieldmask.fieldMap/intMap/strMap", "thrift_reflection.RegisterAST + lookups", "strconv.Atoi/Unquote"},
-		Bounds: "totality: fixed context prefix (11 contexts) + N free bytes (quick N<=2, thorough N<=4), digit strings up to 20 digits; semantics: masks of two field paths over 15 declared ids (incl. 62..65 around the head/tail storage split, 300) with a FREE int16 query id, white and black list; list indices / int keys written with free digits and a string key with a free byte, in three orders/groupings, queried with a FREE index / key",
+			"fieldmask.(*FieldMask).Field/Int/Str/All/GetPath/PathInMask", "fieldmask.fieldMap/intMap/strMap", "thrift_reflection.RegisterAST + lookups", "strconv.Atoi/Unquote",
+			"fieldmask.(*FieldMask).MarshalJSON/marshalBegin/marshalRec", "fieldmask.(*FieldMask).TransferFrom/checkAll/setFieldID/setInt/setStr", "fieldmask.FieldMaskType.MarshalText/UnmarshalText"},
+		Bounds: "JSON: mask -> MarshalJSON -> TransferFrom round trip on 9 path lists x 6 query routes (free ids, indices, keys) x white/black; TransferFrom on symbolic decoded documents (6 root types, <=2 children, one grandchild, free node types, path segments of 1 or 3 (thorough 0..3) free bytes) followed by queries of every kind; totality: fixed context prefix (11 contexts) + N free bytes (quick N<=2, thorough N<=4), digit strings up to 20 digits; semantics: masks of two field paths over 15 declared ids (incl. 62..65 around the head/tail storage split, 300) with a FREE int16 query id, white and black list; list indices / int keys written with free digits and a string key with a free byte, in three orders/groupings, queried with a FREE index / key",
 		Assumptions: []string{"fieldmask.newPathValueStr/pathValue.Str (string header smuggled through unsafe.Pointer) are modelled at function level",
-			"math/rand.Read is a stub returning a fixed pattern", "JSON (un)marshalling is outside (encoding/json is not encodable)"},
+			"math/rand.Read is a stub returning a fixed pattern", "encoding/json is replaced by two harness models: json.Unmarshal of one path segment into *fieldID/*int/*string (JSON integers and escape-free ASCII strings; white space, escapes and non-ASCII bytes assumed away) and the outer decode of a text that follows MarshalJSON's schema; both are validated by the concrete differential (D_C14_5/6) and replaced by the real encoding/json in every native replay", "the Marshal/Unmarshal caches (sync.Map) are outside"},
 		Harnesses: []Harness{
 			{Func: "H_C14_total", Quick: cross(seq(0, 10), 0, 2), Thorough: cross(seq(0, 10), 0, 4), Covers: []string{"accepted", "rejected"}},
 			{Func: "H_C14_digits", Quick: digitTuples(), Covers: []string{"accepted", "rejected"}},
